@@ -64,6 +64,8 @@ Inductive case :=
 | CPHdr (h : txhdr) (p : p_hdr) (back : txhdr)
 | CPHdrFrom (p : p_hdr) (back : txhdr)
 | CPEntry (e : s_entry) (p : p_entry) (back : s_entry)
+(* schema.DigestsFromProto of a list of byte strings of any lengths *)
+| CPDigests (l : list bytes) (back : list bytes)
 (* EncodeRawValueAsKey(v, ty, maxLen) with sql.MaxKeyLen = mkl: (key, n) or error *)
 | CKey (mkl : N) (ty : sqltype) (maxLen : N) (v : sqlval) (out : res (bytes * N))
 (* DecodeValueFromKey(buf, ty, maxLen): (value, consumed) or error *)
@@ -93,6 +95,7 @@ Definition case_ok (c : case) : bool :=
   | CPHdr h p back => p_hdr_eqb (txhdr_to_proto h) p && txhdr_eqb_strict (txhdr_from_proto p) back
   | CPHdrFrom p back => txhdr_eqb_strict (txhdr_from_proto p) back
   | CPEntry e p back => p_entry_eqb (entry_to_proto e) p && s_entry_eqb (entry_from_proto p) back
+  | CPDigests l back => list_eqb bytes_eqb (digests_from_proto l) back
   | CKey mkl ty ml v out => res_eqb (pair_eqb bytes_eqb N.eqb) (enc_key mkl ty ml v) out
   | CKeyDec ty ml buf out => res_eqb (pair_eqb sqlval_eqb N.eqb) (dec_key ty ml buf) out
   | CVal ty ml nullable v out => res_eqb bytes_eqb (enc_val ty ml nullable v) out
